@@ -553,6 +553,38 @@ pub fn build(tier: Tier) -> (Vec<Triple>, Vec<String>) {
         }
     }
     notes.push(format!("F: {} triples", out.len() - n0));
+    // G: type tables with more than 64 entries (indices from 64 on need two SLEB128 bytes)
+    let n0 = out.len();
+    {
+        let mut deep = p(P::Nat8);
+        for _ in 0..70 {
+            deep = Ty::opt(deep);
+        }
+        let some_n = |n: usize, inner: Val| {
+            let mut v = inner;
+            for _ in 0..n {
+                v = Val::some(v);
+            }
+            v
+        };
+        for v in [Val::Opt(None), some_n(70, Val::NatN(8, 7)), some_n(35, Val::Opt(None)), some_n(69, Val::Opt(None))] {
+            out.push(Triple { env: empty.clone(), t: deep.clone(), v, family: "G:big-table" });
+        }
+        // 66 fields of pairwise different composite types (132 table entries), referenced directly and through aliases
+        let wide = Ty::record((0..66u32).map(|i| (i, Ty::opt(Ty::record(vec![(i, p(P::Nat))])))).collect());
+        let wv = |k: u32| Val::record((0..66u32).map(|i| (i, if i % k == 0 { Val::some(Val::record(vec![(i, Val::nat(i as u64))])) } else { Val::Opt(None) })).collect());
+        for k in [1u32, 5, 67] {
+            out.push(Triple { env: empty.clone(), t: wide.clone(), v: wv(k), family: "G:big-table" });
+        }
+        let mut env = Env::new();
+        for i in 0..66u32 {
+            env.0.insert(format!("R{i}"), Ty::record(vec![(i, p(P::Nat))]));
+        }
+        let wide_named = Ty::record((0..66u32).map(|i| (i, Ty::opt(Ty::var(&format!("R{i}"))))).collect());
+        out.push(Triple { env: env.clone(), t: wide_named.clone(), v: wv(1), family: "G:big-table" });
+        out.push(Triple { env, t: Ty::vec(wide_named), v: Val::Vec(vec![wv(3), wv(67)]), family: "G:big-table" });
+    }
+    notes.push(format!("G: {} triples", out.len() - n0));
     (out, notes)
 }
 
@@ -606,7 +638,7 @@ pub fn run(tier: Tier, replay: Option<&str>) -> i32 {
     finish(
         &ctx,
         rep,
-        "triples (environment, type, value): A every primitive and every depth-1 constructor over all 17 primitives with boundary values; B depth-2 types with tiny values; C recursive environments (list, tree, mutual recursion through vec, alias chains, a definition named table0); D function/service references. Per triple (blob spelled as Vec and as Blob): annotate_type(false/true) keeps the meaning and sets variant indices; to_bytes_with_types output is decoded by the strict reference decoder to the same value at an equal type, and by from_bytes_with_types / from_bytes to the same value; to_bytes of the annotated value round-trips. E3: every near-miss (other number width/kind, missing non-optional field, undeclared tag, payload of another tag, other reference kind, one wrong vector element) is accepted by typed encoding and annotate_type(true) iff it is typed under the three stated allowances; annotate_type(false) must only be type safe. E3b: every value that is of the type only through the allowances (nat at int with magnitudes 0, 63, 64, 100, 127, 128, 8191, 8192, 16383, 2^20, 2^21-1, 2^64-1; null / reserved at opt; anything at reserved; absent null/opt/reserved field; float64 literal at float32), at every position, must be accepted and the message must denote its normal form at the type (strict reference decoder, and from_bytes_with_types). Family F: aliases of every primitive, directly and through a chain, at every constructor position. Plus IDLValue::try_from_candid_type on every small value of the Rust corpus.",
+        "triples (environment, type, value): A every primitive and every depth-1 constructor over all 17 primitives with boundary values; B depth-2 types with tiny values; C recursive environments (list, tree, mutual recursion through vec, alias chains, a definition named table0); D function/service references. Per triple (blob spelled as Vec and as Blob): annotate_type(false/true) keeps the meaning and sets variant indices; to_bytes_with_types output is decoded by the strict reference decoder to the same value at an equal type, and by from_bytes_with_types / from_bytes to the same value; to_bytes of the annotated value round-trips. E3: every near-miss (other number width/kind, missing non-optional field, undeclared tag, payload of another tag, other reference kind, one wrong vector element) is accepted by typed encoding and annotate_type(true) iff it is typed under the three stated allowances; annotate_type(false) must only be type safe. E3b: every value that is of the type only through the allowances (nat at int with magnitudes 0, 63, 64, 100, 127, 128, 8191, 8192, 16383, 2^20, 2^21-1, 2^64-1; null / reserved at opt; anything at reserved; absent null/opt/reserved field; float64 literal at float32), at every position, must be accepted and the message must denote its normal form at the type (strict reference decoder, and from_bytes_with_types). Family G: type tables with more than 64 entries (opt nested 70 deep; records of 66 fields of pairwise different composite types, inline and through 66 definitions). Family F: aliases of every primitive, directly and through a chain, at every constructor position. Plus IDLValue::try_from_candid_type on every small value of the Rust corpus.",
         &["R1 typing judgement, R2 strict decoder, R3 equality", "extra record fields and missing optional fields are not treated as near-misses (annotation documents width subtyping / field defaults)"],
         json!({}),
     )
